@@ -142,6 +142,9 @@ func (im *Impl) Exec(line string) (out string) {
 			if err == storage.ErrExceedGasLimit {
 				return "err gas"
 			}
+			if err == storage.ErrReservedValue {
+				return "err reserved"
+			}
 			return "err other"
 		}
 		return "ok"
